@@ -1081,13 +1081,17 @@ theorem export_keeps (s : State) (q : Pk) (m : Nm) {p : Pk} {n : Nm} :
     · exact Tab.exportOwn_keeps _ _ _ hd
     · exact hd
 
+theorem setqIn_keeps (s : State) (q : Pk) (m : Nm) (v : Option Nat) {p : Pk} {n : Nm} :
+    ((s.v.defs p n).isSome = true → ((setqIn s q m v).v.defs p n).isSome = true) ∧
+    (setqIn s q m v).f.defs = s.f.defs := by
+  unfold setqIn
+  split
+  · exact ⟨fun hd => Tab.assign_keeps q m v hd, rfl⟩
+  · exact ⟨fun hd => Tab.create_keeps s.users q m { exp := false, val := v } hd, rfl⟩
+
 theorem setq_keeps (s : State) (m : Nm) (v : Option Nat) {p : Pk} {n : Nm} :
     ((s.v.defs p n).isSome = true → ((setq s m v).v.defs p n).isSome = true) ∧
-    (setq s m v).f.defs = s.f.defs := by
-  unfold setq
-  split
-  · exact ⟨fun hd => Tab.assign_keeps s.cur m v hd, rfl⟩
-  · exact ⟨fun hd => Tab.create_keeps s.users s.cur m { exp := false, val := v } hd, rfl⟩
+    (setq s m v).f.defs = s.f.defs := setqIn_keeps s s.cur m v
 
 theorem defpackage_keeps (s : State) (q : Pk) (us : List Pk) (ex : List Nm) {p : Pk} {n : Nm} :
     ((s.v.defs p n).isSome = true → ((defpackage s q us ex).v.defs p n).isSome = true) ∧
